@@ -83,11 +83,11 @@ def plan(tier):
     pl.units = common.arg_layer_units("A", chks=(True,)) + common.arg_support_units("A")
     pl.units.append(U("X.lookup.chk", "contracts.gating", "h_get_command_instance", (True, True), sample_models=True, native_ok=True))
 
-    pl.units += common.pushdown_units()
+    pl.units += common.pushdown_units() + common.driver_units()
 
     def lf(u, label):
         if u.uid.startswith("PD."):
-            return label.startswith(("P1.", "P2.", "P3.", "P4.", "P5.", "P6.", "P7."))
+            return label.startswith(("P1.", "P2.", "P3.", "P4.", "P5.", "P6.", "P7.", "P8."))
         if u.uid.startswith("X."):
             return label.startswith("X.") or label in ("G1.unknown-names-input",)
         return label in ("verdict", "exception-payload", "state.positional-count", "state.pending", "state.order-advances",
@@ -97,7 +97,7 @@ def plan(tier):
     pl.label_filter = lf
     pl.static = [static_T, lambda: lexfacts.obligations_L(PID), lambda: lexfacts.obligations_structure(PID)]
     pl.bounded = [bounded_tokens, bounded_generated]
-    pl.functions = common.ARG_FUNCTIONS + [("sievelib.commands", "get_command_instance")] + common.PUSHDOWN_FUNCTIONS
+    pl.functions = common.ARG_FUNCTIONS + [("sievelib.commands", "get_command_instance")] + common.PUSHDOWN_FUNCTIONS + [("sievelib.parser", "Parser.parse")]
     pl.trusted = [common.TRUSTED_LOWER, common.TRUSTED_RE, "frozen RFC command table (contracts/tables_frozen.py) and the RFC 5228 8.1 "
                   "token regexes in props/lexfacts.py, both hand-written from the RFCs",
                   "independent reference recognizer bounded/sieve_ref.py (oracle of the bounded part)"]
@@ -112,5 +112,5 @@ def plan(tier):
         "of the corresponding lexer rule (regex inclusion); command lookup maps every name to a concrete command class or "
         "UnknownCommand. Bounded (labelled bounded): the push-down layer against an independent reference recognizer on all "
         "token sequences up to 4 (quick) / 5 (thorough) tokens over a 39-token vocabulary and on generated scripts with "
-        "single-token edits." + common.PUSHDOWN_TEXT)
+        "single-token edits." + common.PUSHDOWN_TEXT + common.DRIVER_TEXT)
     return pl
